@@ -407,6 +407,107 @@ pub fn run_record(id: &str, cfg: &Cfg, pcm: &Pcm, mode: &str, src: &str, with_or
     }
 }
 
+
+/// The first quantised LPC parameter set the encoder logs for `pcm` (single-thread), if any.
+fn first_qlpc(cfg: &Cfg, pcm: &Pcm) -> Option<(Vec<i16>, i8)> {
+    let (c, p) = (cfg.clone(), pcm.clone());
+    let log = catch(move || {
+        flacenc::verif_hooks::oracle_start();
+        let _ = encode(&c, &p, "st", "mem");
+        flacenc::verif_hooks::oracle_take()
+    })
+    .ok()?;
+    log.into_iter().find_map(|ev| match ev {
+        flacenc::verif_hooks::OracleEvent::Qlpc { coefs, shift, .. } => Some((coefs, shift)),
+        _ => None,
+    })
+}
+
+/// `burst` focus (finding F14): a smooth, strongly low-passed multi-sine makes the LPC estimator return
+/// large alternating coefficients (small quantiser shift); a short full-scale burst in the first
+/// `order + 1` samples of the block - where the Tukey window weight is ~0, so the estimate hardly moves -
+/// whose signs match the signs of the quantised coefficients then maximises |prediction|. The quantised
+/// parameters are read from the oracle log of a first pass and the burst is re-fitted up to three times.
+/// Variants: (0) largest magnitude still on the 32-bit path of `compute_error` (final subtraction
+/// leaves i32), (1) a residual of exactly -2^31 (`encode_signbit(i32::MIN)`), (2) full scale.
+fn burst_case(rng: &mut Rng, i: usize, max_samples: usize) -> (Cfg, Pcm) {
+    let bps = *rng.pick(&[24usize, 24, 24, 20, 16]);
+    let stereo_side = rng.chance(25);
+    let blocks: Vec<usize> = [4096usize, 1152, 4608, 16384, 32767, 256, 8192].iter().copied().filter(|b| *b * (1 + stereo_side as usize) <= max_samples.max(256)).collect();
+    let block = *rng.pick(&blocks);
+    let mut cfg = Cfg::default();
+    cfg.block_size = block;
+    cfg.lpc_order = *rng.pick(&[4usize, 6, 8, 8, 10, 10, 10, 12, 13, 16, 20, 24]);
+    cfg.quant_precision = *rng.pick(&[4usize, 5, 6, 7, 7, 8, 9, 10, 12, 15, 15]);
+    cfg.window_rect = rng.chance(10);
+    cfg.alpha_bits = (*rng.pick(&[0.1f32, 0.4, 0.4, 0.5, 1.0])).to_bits();
+    cfg.use_fixed = rng.chance(70);
+    let ns = 8 + rng.below(17) as usize;
+    let f0 = *rng.pick(&[0.004f64, 0.006, 0.008, 0.012, 0.016, 0.02, 0.024, 0.03]);
+    let wave: Vec<f64> = (0..block)
+        .map(|t| (0..ns).map(|k| (6.283185307179586 * f0 * (1.0 + k as f64 * 0.61803) * t as f64 + k as f64 * 1.3).sin()).sum())
+        .collect();
+    let mx = wave.iter().fold(1e-9f64, |a, b| a.max(b.abs()));
+    // the adversarial channel: the only channel, or the side channel (one bit wider) of a stereo pair
+    let full: i64 = if stereo_side { (1i64 << bps) - 2 } else { (1i64 << (bps - 1)) - 1 };
+    let render = |m: i64, head: &[i64]| -> Pcm {
+        let mut ch: Vec<i64> = wave.iter().map(|x| (x / mx * m as f64).round() as i64).collect();
+        for (k, h) in head.iter().enumerate() {
+            if k < ch.len() {
+                ch[k] = *h;
+            }
+        }
+        let data: Vec<i32> = if stereo_side {
+            ch.iter().flat_map(|s| { let l = s >> 1; [l as i32, (l - s) as i32] }).collect()
+        } else {
+            ch.iter().map(|s| *s as i32).collect()
+        };
+        Pcm { channels: 1 + stereo_side as usize, bps, rate: 48000, data, family: "lowpass_burst" }
+    };
+    let (mut m, mut head): (i64, Vec<i64>) = (full, vec![]);
+    for _ in 0..3 {
+        let pcm = render(m, &head);
+        let Some((q, sh)) = first_qlpc(&cfg, &pcm) else { break };
+        let o = q.len();
+        let ssum: i64 = q.iter().map(|c| i64::from(*c).abs()).sum();
+        if o == 0 || ssum == 0 || o + 1 >= block {
+            break;
+        }
+        let sgn: i64 = if rng.chance(50) { 1 } else { -1 };
+        let mut variant = i % 3;
+        if variant == 0 && sh != 0 {
+            variant = 1;
+        }
+        let mut b = full;
+        let mut last: Option<i64> = None;
+        if variant == 0 {
+            b = full.min(((1i64 << 31) - 2) / ssum);
+            m = b;
+        } else if variant == 1 {
+            // (S*b >> sh) + b/2 ~ 2^31, then x[o] is tuned so that the residual is exactly -2^31
+            let ratio = ssum as f64 / f64::from(1u32 << sh) + 0.5;
+            let cand = ((1u64 << 31) as f64 / ratio) as i64;
+            if cand <= full && cand > 0 {
+                b = cand;
+                let pred = (ssum * b) >> sh;
+                let x = pred - (1i64 << 31);
+                if x.abs() <= b {
+                    last = Some(sgn * x);
+                }
+            }
+        }
+        head = vec![0; o + 1];
+        for (j, c) in q.iter().enumerate() {
+            head[o - 1 - j] = if *c >= 0 { sgn * b } else { -sgn * b };
+        }
+        head[o] = last.unwrap_or(-sgn * b);
+        if std::env::var("FVH_DEBUG").is_ok() {
+            eprintln!("burst i={i} bps={bps} side={stereo_side} block={block} lo={} qp={} sh={sh} o={o} S={ssum} maxq={} variant={variant} b={b} full={full} last={last:?}", cfg.lpc_order, cfg.quant_precision, q.iter().map(|c| i64::from(*c).abs()).max().unwrap());
+        }
+    }
+    (cfg, render(m, &head))
+}
+
 pub fn generate(seed: u64, cases: usize, max_samples: usize, focus: &str, out: &mut dyn FnMut(String)) {
     let mut rng = Rng::new(seed ^ 0x57);
     // corpus: witnesses of the confirmed findings (F1, F3a, F3b, F4, F9) — always first
@@ -457,8 +558,38 @@ pub fn generate(seed: u64, cases: usize, max_samples: usize, focus: &str, out: &
         let d: Vec<i32> = (0..4096).map(|t| if t % 8 == 0 { 1 << 22 } else { 0 }).collect();
         let p6 = Pcm { channels: 1, bps: 24, rate: 44100, data: d, family: "dense_impulses" };
         out(run_record("corpus-quotient-sum-2pow32", &c6, &p6, "st", "mem", true));
+        // F14: LPC prediction error outside the i32 / FLAC residual range (compute_error's final subtraction,
+        // encode_signbit(i32::MIN)); explicit samples, so that the cases do not depend on the platform's sin()
+        for (name, text) in [
+            ("A", include_str!("../../corpus/lpc-overflow-witness/witness_A.txt")),
+            ("B", include_str!("../../corpus/lpc-overflow-witness/witness_B.txt")),
+            ("C", include_str!("../../corpus/lpc-overflow-witness/witness_C.txt")),
+            ("D", include_str!("../../corpus/lpc-overflow-witness/witness_D.txt")),
+        ] {
+            let get = |k: &str| text.split_whitespace().find_map(|t| t.strip_prefix(&format!("{k}="))).unwrap().to_string();
+            let data: Vec<i32> = get("samples").split(',').map(|x| x.parse().unwrap()).collect();
+            if data.len() > max_samples.max(4096) {
+                continue;
+            }
+            let mut c = Cfg::default();
+            c.block_size = get("block").parse().unwrap();
+            c.lpc_order = get("lpc_order").parse().unwrap();
+            c.quant_precision = get("quant_precision").parse().unwrap();
+            c.alpha_bits = get("alpha_bits").parse().unwrap();
+            let p = Pcm { channels: get("channels").parse().unwrap(), bps: 24, rate: 48000, data, family: "lowpass_burst" };
+            out(run_record(&format!("corpus-f14-{name}"), &c, &p, "st", "mem", true));
+            if name == "A" || name == "D" {
+                out(run_record(&format!("corpus-f14-{name}-mt"), &c, &p, "mt:2", "mem", false));
+            }
+        }
     }
     for i in 0..cases {
+        if focus == "burst" {
+            let (cfg, pcm) = burst_case(&mut rng, i, max_samples);
+            let mode = match i % 5 { 3 => "frames", 4 => "mt:2", _ => "st" };
+            out(run_record(&format!("burst{i}"), &cfg, &pcm, mode, "mem", mode == "st"));
+            continue;
+        }
         let mut cfg = gen::random_valid_cfg(&mut rng);
         if focus == "residues" {
             // C04: every residue of len mod bs for small block sizes
@@ -481,11 +612,41 @@ pub fn generate(seed: u64, cases: usize, max_samples: usize, focus: &str, out: &
             let b = *rng.pick(&[8usize, 16]);
             pcm = gen::pcm(&mut rng, fam, 1, b, pcm.rate, (frames - 1) * cfg.block_size + tail.max(1));
         }
+        if focus == "threshold" {
+            // C09: candidates whose real size is within ~1% of the verbatim size. Noise whose level switches
+            // every 64 samples; the number of loud segments sweeps deterministically through the band in
+            // which the best Rice-coded candidate crosses the verbatim size (block 4096, finest partitioning).
+            let bps = *rng.pick(&[16usize, 16, 12, 20]);
+            let ch = if i % 5 == 4 { 2 } else { 1 };
+            let loud = 36 + (i % 26); // of 64 segments
+            let hi = (1i64 << (bps - 1)) - 1;
+            let nblk = 1 + (i % 2);
+            let n = (4096 * nblk).min(max_samples / ch).max(64);
+            let mut data = Vec::with_capacity(n * ch);
+            let mut amps = vec![hi; ch];
+            for t in 0..n {
+                for c in 0..ch {
+                    if t % 64 == 0 {
+                        // evenly spread (Bresenham) or random placement of the loud segments
+                        let seg = (t / 64) % 64;
+                        let is_loud = if i % 3 == 0 { rng.below(64) < loud as u64 } else { (seg * loud) / 64 != ((seg + 1) * loud) / 64 };
+                        amps[c] = if is_loud { hi } else { hi / 4 };
+                    }
+                    data.push(rng.range(-amps[c], amps[c]) as i32);
+                }
+            }
+            cfg = Cfg::default();
+            cfg.block_size = 4096.min(n);
+            if i % 4 == 1 { cfg.use_fixed = false; }
+            if i % 4 == 2 { cfg.order_sel_bitcount = true; }
+            if i % 7 == 3 { cfg.max_parameter = 12; }
+            pcm = Pcm { channels: ch, bps, rate: 44100, data, family: "bursty_noise" };
+        }
         if focus == "loud" {
-            let fam = *rng.pick(&["fullscale", "alt_fullscale", "heavy_tail", "loud_silent_mix", "anti_stereo", "white", "dense_impulses", "dense_impulses", "tone_hf"]);
-            let bps = *rng.pick(&[20usize, 24]);
+            let fam = *rng.pick(&["fullscale", "alt_fullscale", "heavy_tail", "loud_silent_mix", "anti_stereo", "white", "dense_impulses", "dense_impulses", "tone_hf", "bursty_noise", "bursty_noise"]);
+            let bps = if fam == "bursty_noise" { *rng.pick(&[12usize, 16, 16, 20]) } else { *rng.pick(&[20usize, 24]) };
             pcm = gen::pcm(&mut rng, fam, pcm.channels.min(2), bps, pcm.rate, pcm.len());
-            cfg.max_parameter = *rng.pick(&[0usize, 0, 1, 2, 8, 14]);
+            cfg.max_parameter = if fam == "bursty_noise" { *rng.pick(&[14usize, 14, 12, 10]) } else { *rng.pick(&[0usize, 0, 1, 2, 8, 14]) };
             // configurations in which a single candidate decides: no LPC / order-0 fixed predictor only /
             // a one-partition entropy estimate
             if rng.chance(40) {
